@@ -29,7 +29,7 @@ EXTENDS Integers, Sequences, FiniteSets, TLC
 
 Max2(a, b) == IF a > b THEN a ELSE b
 
-NewHalf == [started |-> FALSE, next |-> 0, segs |-> {}, kept |-> 0, ended |-> FALSE]
+NewHalf == [started |-> FALSE, next |-> 0, segs |-> {}, kept |-> 0, ended |-> FALSE, anchor |-> FALSE]
 NewConn == [news |-> 0, completes |-> 0, removed |-> FALSE, incarnation |-> 0]
 NewState == [h |-> <<>>, c |-> <<>>, cfg |-> [asm |-> "reassembly", limit |-> 0],
              flush |-> [kind |-> "none", t |-> 0], maxpkt |-> 0]
@@ -59,8 +59,8 @@ JudgeSeg(st, e) ==
   LET k == HKey(e)
       h == GetH(st, k)
       s == [lo |-> e.lo, hi |-> e.hi, ts |-> e.ts, fin |-> (e.fin \/ e.rst)]
-  IN IF h.ended \/ GetC(st, e.c).completes > 0
-     THEN <<"ok", st>>                 \* segments after the end of a direction / completion are ignored
+  IN IF GetC(st, e.c).completes > 0
+     THEN <<"ok", st>>                 \* segments after completion of the stream are ignored
      ELSE LET h1 == [h EXCEPT !.segs = @ \cup {s}]
               h2 == IF ~h.started /\ e.syn THEN [h1 EXCEPT !.started = TRUE, !.next = 0, !.kept = 0]
                     ELSE IF ~h.started /\ e.force THEN [h1 EXCEPT !.started = TRUE, !.next = e.lo, !.kept = e.lo]
@@ -78,27 +78,29 @@ JudgeSG(st, e) ==
       inflush == st.flush.kind # "none"
       a  == IF n > 0 THEN e.nrun[1][1] ELSE (IF h.started THEN h.next + Max2(e.skip, 0) ELSE 0)
       b  == a + n
+      \* where the assembler stood before this delivery (an unstarted stream that was anchored by an
+      \* empty delivery, e.g. a lone RST, has a position the harness cannot see)
+      base == IF h.started THEN h.next ELSE a - Max2(e.skip, 0)
       total == sv + n
       sgStart == IF sv > 0 THEN e.srun[1][1] ELSE a
       kept2 == IF e.keep < 0 \/ e.keep >= total THEN b ELSE sgStart + e.keep
-      h2 == IF h.ended THEN h ELSE
-            [h EXCEPT !.started = (h.started \/ n > 0), !.next = (IF h.started \/ n > 0 THEN b ELSE h.next),
-                      !.kept = kept2, !.ended = e.end]
+      h2 == [h EXCEPT !.started = (h.started \/ n > 0), !.next = (IF h.started \/ n > 0 THEN b ELSE h.next),
+                      !.kept = kept2, !.ended = (h.ended \/ e.end),
+                      !.anchor = (h.anchor \/ (n = 0 /\ ~h.started))]
       reason ==
         IF c.completes > 0 THEN "data-after-complete"
-        ELSE IF h.ended /\ n + sv > 0 THEN "data-after-end"
         ELSE IF Len(e.nrun) > 1 THEN "not-contiguous-or-altered"
         ELSE IF Len(e.srun) > 1 THEN "saved-not-contiguous-or-altered"
         ELSE IF h.started /\ e.skip < 0 THEN "skip-unknown-on-started-stream"
-        ELSE IF ~h.started /\ e.skip # -1 /\ n > 0 THEN "skip-known-on-unstarted-stream"
+        ELSE IF ~h.started /\ ~h.anchor /\ e.skip # -1 /\ n > 0 THEN "skip-known-on-unstarted-stream"
         ELSE IF h.started /\ n > 0 /\ a # h.next + e.skip THEN
                 (IF a < h.next THEN "duplicate-or-reordered" ELSE "wrong-skip")
         ELSE IF e.skip > 0 /\ ~(inflush \/ lim) THEN "gap-released-without-flush-or-limit"
-        ELSE IF h.started /\ e.skip > 0 /\ \E s \in h.segs : Overlaps(s, h.next, h.next + e.skip) THEN "arrived-bytes-skipped"
+        ELSE IF (h.started \/ h.anchor) /\ e.skip > 0 /\ \E s \in h.segs : Overlaps(s, base, base + e.skip) THEN "arrived-bytes-skipped"
         ELSE IF ~Covered(a, b, h.segs) THEN "invented-bytes"
         ELSE IF sv > 0 /\ ~(e.srun[1][1] = h.kept /\ e.srun[1][2] = h.next) THEN "wrong-saved-bytes"
         ELSE IF sv = 0 /\ h.kept < h.next /\ h.started /\ e.skip <= 0 THEN "kept-bytes-not-presented"
-        ELSE IF e.end /\ ~(\E s \in h.segs : s.fin /\ s.hi <= b) THEN "end-without-fin"
+        ELSE IF e.end /\ ~(\E s \in h.segs : s.fin /\ (s.hi <= b \/ (n = 0 /\ ~h.started))) THEN "end-without-fin"
         ELSE IF st.flush.kind = "older" /\ e.skip > 0 /\ n > 0
                 /\ ~(\E s \in h.segs : s.lo <= a /\ a < s.hi /\ s.ts < st.flush.t) THEN "age-flush-released-newer-data"
         ELSE "ok"
